@@ -22,7 +22,7 @@ THEOREMS = [
     'IblVerif.C14.half_peak_absent',
     'IblVerif.C14.recovery_fallback',
     'IblVerif.C14.recovery_prefix_counterexample',
-    'IblVerif.C14.stays_high_counterexample',
+    'IblVerif.C14.swapped_positive_peak_witness',
     'IblVerif.C14.scale_equivariant',
     'IblVerif.C14.scale_derived_columns',
     'IblVerif.C14.channel_perm',
@@ -33,7 +33,7 @@ RULE = ('(a) seeded structured batches arr[N, T, C] of integer- or dyadic-valued
         '10, 11, 200, short windows), C in 1..40 (biased to 1, 2, 40), N in 1..10: synthetic biphasic spikes of either polarity with a tip lobe, '
         'spatial decay over channels and integer noise; peak planted at every position incl. samples 1, 2, T-3..T-1 and T-k-1..T-k+1; '
         'planted boundaries: trough exactly at 2/3 of the peak (+-1), equal maxima in time and across channels, no half-peak sample '
-        'before / after the peak, a sample exactly at half the peak, positive peak that stays high (finding F21 class), NaN-padded and '
+        'before / after the peak, a sample exactly at half the peak, positive peak that stays high afterwards (former finding F21 class), NaN-padded and '
         'partially-NaN channels, small-integer noise waveforms (many ties), a waveform with its peak on sample 0 (must raise), recovery '
         'offsets k in {0..T+1} through (fs, recovery_duration_ms) incl. the defaults, 2-D input, scale factors 1/4, 1/2, 1024; '
         '(b) the exhaustive box of ALL single-channel waveforms over {-1, 0, 1} of length 10 (thorough: also 11) whose largest deflection is '
@@ -52,9 +52,9 @@ ASSUMPTIONS = [
     'compared by exception type (ValueError), outside the success claim of the property; the oracle of the search does not judge them',
     'ties: the model (as the code) takes the first channel / first sample reaching the largest |deflection|; the search oracle accepts '
     'any of the tied locations, and demands the channel-permutation law only under a unique maximal channel',
-    'finding F21 (positive largest deflection after which the trace never falls below 2/3 of it, e.g. a positive peak on the last sample): '
-    'tip / half-peak / recovery-value columns are computed on the un-inverted trace; these columns are not compared and not demanded '
-    'on that input class (the theorems about them carry the hypothesis not StaysHigh); every other column is',
+    'former finding F21 (positive largest deflection after which the trace never falls below 2/3 of it, e.g. a positive peak on the last '
+    'sample) is repaired in /repo (3bee7fb): that class is generated (plant stays-high, peaks on the last sample, ternary box) and ALL '
+    'columns are compared and demanded on it like on any other input',
 ]
 TRUSTED = [
     'np.argmax / np.nanargmax return the first maximal index; np.nanargmax raises ValueError on an all-NaN row (NumPy documentation)',
@@ -68,8 +68,7 @@ LEVEL_TEXT = ('Lean 4 theorems for every batch of rational-valued multi-channel 
               'pipeline incl. the df_index sub-selection and write-back equals the per-waveform pipeline); model tied to '
               'compute_spike_features by an exact differential run incl. an exhaustive ternary box')
 LEVEL_NOTE = ('trusted: Lean kernel + Mathlib order lemmas on Rat, the Python correspondence harness, exactness of float32/float64 arithmetic '
-              'on the dyadic inputs used; derived slope/duration/ratio columns of the real code are only compared numerically (partial); '
-              'finding F21 excluded by hypothesis (StaysHigh) and demonstrated by stays_high_counterexample')
+              'on the dyadic inputs used; derived slope/duration/ratio columns of the real code are only compared numerically (partial)')
 TECHNIQUE = ('Lean 4 proofs by induction over first-occurrence argmax / masked argmax and list plumbing (simp/omega/linarith) over exact rationals; '
              'exact correspondence run of index and value columns; derived float columns numeric (partial)')
 
@@ -78,9 +77,6 @@ IDX_COLS = ['peak_trace_idx', 'peak_time_idx', 'peak_val', 'invert_sign_peak', '
             'half_peak_pre_val', 'recovery_time_idx', 'recovery_val']
 DER_COLS = ['peak_to_trough_ratio', 'peak_to_trough_duration', 'half_peak_duration', 'depolarisation_slope',
             'repolarisation_slope', 'recovery_slope']
-# columns that finding F21 corrupts (value columns read from the un-inverted trace, and what is derived from them)
-F21_COLS = {'tip_time_idx', 'tip_val', 'half_peak_post_time_idx', 'half_peak_pre_time_idx', 'half_peak_post_val',
-            'half_peak_pre_val', 'recovery_val', 'half_peak_duration', 'depolarisation_slope', 'recovery_slope'}
 INT_COLS = {'peak_trace_idx', 'peak_time_idx', 'trough_time_idx', 'tip_time_idx', 'half_peak_post_time_idx',
             'half_peak_pre_time_idx', 'recovery_time_idx'}
 
@@ -156,8 +152,8 @@ def _first_sample_tie(x):
 
 
 def _stays_high(x):
-    """Finding F21 class: a positive largest deflection after which the trace never falls below 2/3 of it
-    (any of the locations reaching the largest |deflection|, should there be several)."""
+    """Former finding F21 class (only used to report how often it is exercised): a positive largest deflection after
+    which the trace never falls below 2/3 of it."""
     x = _clean(x)
     a = np.abs(x)
     m = a.max()
@@ -214,7 +210,7 @@ def _spike(rng, T, C, k, plant):
     elif plant == 'tie-chan' and C > 1:       # the same |extremum| on another channel
         c1 = int(rng.integers(0, C))
         x[int(rng.integers(1, T)), c1] = pol * A * (1 if rng.random() < 0.5 else -1)
-    elif plant == 'stays-high':               # F21 class (for pol > 0): the trace stays within [0.7 A, A] after the peak
+    elif plant == 'stays-high':               # former F21 class (for pol > 0): the trace stays within [0.7 A, A] after the peak
         x[p0:, c0] = pol * rng.integers(int(0.7 * A), A, size=T - p0)
         x[p0, c0] = pol * A
     elif plant == 'no-half-pre':              # no sample before the peak is back within half of it
@@ -352,8 +348,8 @@ def _compare_batch(ctx, st, op, desc, arr, call, kw, k, T, dtype, ans, tags):
             ip, mp = [], []
             for n, ((iex, ide), (mex, mde)) in enumerate(zip(irows, mrows)):
                 sh = _stays_high(arr[n])
-                skip = F21_COLS if sh else set()
-                bad = [c for c in DER_COLS if c not in skip and not _close(ide[c], mde[c], rel)]
+                skip = set()
+                bad = [c for c in DER_COLS if not _close(ide[c], mde[c], rel)]
                 rt = mde['peak_to_trough_ratio']
                 if rt not in ('nan', 'inf', '-inf') and Fraction(rt) > 0:
                     if not abs(ide['peak_to_trough_ratio_log'] - math.log(Fraction(rt))) <= 1e-5:
@@ -369,16 +365,15 @@ def _compare_batch(ctx, st, op, desc, arr, call, kw, k, T, dtype, ans, tags):
                      else 'negative peak at the extremum'] += 1
                 st.c['trough+k<T' if trg + k < T else 'trough+k=T' if trg + k == T else 'trough+k>T'] += 1
                 st.c['trough on last sample' if trg == T - 1 else 'trough = peak' if trg == pt else 'trough inside'] += 1
-                if not sh:
-                    st.c['no half-peak sample after the peak' if int(iex['half_peak_post_time_idx']) == 0 else 'half-peak sample after the peak'] += 1
-                    st.c['no half-peak sample before the peak' if int(iex['half_peak_pre_time_idx']) == T - 1 and pt != T else 'half-peak sample before the peak'] += 1
+                st.c['no half-peak sample after the peak' if int(iex['half_peak_post_time_idx']) == 0 else 'half-peak sample after the peak'] += 1
+                st.c['no half-peak sample before the peak' if int(iex['half_peak_pre_time_idx']) == T - 1 and pt != T else 'half-peak sample before the peak'] += 1
                 if not _unique_max_channel(arr[n]):
                     st.c['several channels reach the maximum'] += 1
                 if sh:
                     st.f21 += 1
                     real_tip = _clean(arr[n])[int(iex['tip_time_idx']), int(iex['peak_trace_idx'])]
                     st.f21_agree += int(_canon(iex, set()) == _canon(mex, set()))
-                    st.f21_still += int(float(Fraction(iex['tip_val'])) != real_tip)
+                    st.f21_still += int(float(Fraction(iex['tip_val'])) == real_tip)
                 nontriv = nontriv or pt < T - 1
             impl_s, model_s = 'ok ' + '|'.join(ip), 'ok ' + '|'.join(mp)
         # the in-place NaN → 0 of _validate_arr_in is observable on the caller's array
@@ -446,9 +441,8 @@ def correspondence(ctx):
              f'{{-1,0,1}} for T in {list(box_T)} ({nbox} waveforms whose largest deflection is not on sample 0: all of them; {nbox_edge} with a '
              f'largest deflection on sample 0' + (' (sample)' if ctx.quick else ': all of them for T = 10, a sample for T = 11') + '): all 14 index/value columns exact, 7 derived columns numeric')
     ctx.note('per-waveform distribution (successful extractions): ' + ', '.join(f'{k}: {v}' for k, v in sorted(st.c.items())))
-    ctx.note(f'finding F21 class: {st.f21} waveforms (tip/half-peak/recovery-value columns not compared there); the model, which transcribes '
-             f'the code as it is, agrees with the code on ALL columns for {st.f21_agree} of them; on {st.f21_still} the defect is visible as a '
-             f'tip_val that is not the sample at tip_time_idx')
+    ctx.note(f'former finding F21 class (positive peak that stays above 2/3 of itself, e.g. on the last sample): {st.f21} waveforms, all '
+             f'columns compared; model = code on {st.f21_agree} of them, tip_val is the sample at tip_time_idx on {st.f21_still}')
     # constants owned by the code: defaults of compute_spike_features (k = 5) and the 1.5 swap threshold
     import inspect
     from ibldsp import waveforms
@@ -473,7 +467,7 @@ def correspondence(ctx):
 # ---------------------------------------------------------------------------------------------
 # oracle: the property, stated directly on the real code
 # ---------------------------------------------------------------------------------------------
-def _row_laws(x, r, k, T, f21):
+def _row_laws(x, r, k, T):
     """x: cleaned (T, C) waveform; r: the data-frame row.  Returns a description of the first broken law or None.
     Ties (several samples reaching the same largest |deflection|, several equal minima) are accepted either way."""
     a = np.abs(x)
@@ -519,8 +513,6 @@ def _row_laws(x, r, k, T, f21):
     exp = trg + k if trg + k < T else T - 1
     if rec != exp:
         return f'recovery_time_idx {rec}, expected {exp} (trough {trg} + offset {k}, T = {T})'
-    if f21:
-        return None
     if flip * row[tip] != (flip * row[:pt]).max():
         return (f'tip at sample {tip} ({row[tip]}) is not the most opposite sample to the peak ({pt}, {pv}) before it: '
                 f'sample {int(np.argmax(flip * row[:pt]))} holds {row[int(np.argmax(flip * row[:pt]))]}')
@@ -562,9 +554,8 @@ def oracle(arr, kw, k, rng=None):
         return f'feature extraction raised ({err}) although no waveform has its largest deflection on sample 0 and offset {k} < T = {T}'
     if len(df) != N:
         return f'{len(df)} rows for {N} waveforms'
-    f21 = [_stays_high(arr[n]) for n in range(N)]
     for n in range(N):
-        msg = _row_laws(xs[n], df.iloc[n], k, T, f21[n])
+        msg = _row_laws(xs[n], df.iloc[n], k, T)
         if msg:
             return f'waveform {n}: {msg}'
     # scaling by c > 0
@@ -573,9 +564,8 @@ def oracle(arr, kw, k, rng=None):
         if d2 is None:
             return f'scaling by {cfac} makes the extraction raise ({e2})'
         for n in range(N):
-            skip = F21_COLS if f21[n] else set()
-            cols_i = [c for c in IDX_COLS if c in INT_COLS and c not in skip]
-            cols_v = [c for c in IDX_COLS if c not in INT_COLS and c != 'invert_sign_peak' and c not in skip]
+            cols_i = [c for c in IDX_COLS if c in INT_COLS]
+            cols_v = [c for c in IDX_COLS if c not in INT_COLS and c != 'invert_sign_peak']
             bad = _same(df.iloc[n], d2.iloc[n], cols_i) or _same(df.iloc[n], d2.iloc[n], cols_v, cfac)
             if bad:
                 return f'waveform {n}: scaling the batch by {cfac} changes {bad}: {float(df.iloc[n][bad])} -> {float(d2.iloc[n][bad])}'
@@ -597,8 +587,7 @@ def oracle(arr, kw, k, rng=None):
             if dp is None:
                 return f'permuting the channels by {perm.tolist()} makes the extraction raise ({ep})'
             for n in range(N):
-                skip = F21_COLS if f21[n] else set()
-                bad = _same(df.iloc[n], dp.iloc[n], [c for c in IDX_COLS if c != 'peak_trace_idx' and c not in skip])
+                bad = _same(df.iloc[n], dp.iloc[n], [c for c in IDX_COLS if c != 'peak_trace_idx'])
                 if bad:
                     return f'waveform {n}: permuting the channels by {perm.tolist()} changes {bad}'
                 if int(perm[int(dp.iloc[n]['peak_trace_idx'])]) != int(df.iloc[n]['peak_trace_idx']):
@@ -684,23 +673,3 @@ def replay(ctx, rep):
     r = _fails(arr, i['kwargs'], i['idx_from_trough'])
     print('oracle:', r)
     return r is not None
-
-
-# ---------------------------------------------------------------------------------------------
-# known finding F21
-# ---------------------------------------------------------------------------------------------
-F21_WITNESS = [0, 1, -2, 1, 0, 2, 5, 20, 60, 100]
-
-
-def _demo_stays_high():
-    """Positive peak on the last sample: half_peak_pre_time_idx must be 7 (20 < 50), tip_val must be a sample of the trace."""
-    x = np.array(F21_WITNESS, np.float32)[None, :, None]
-    df, err = _features(x)
-    if df is None:
-        return False
-    r = df.iloc[0]
-    return bool(int(r['half_peak_pre_time_idx']) != 7 or float(r['tip_val']) != F21_WITNESS[int(r['tip_time_idx'])])
-
-
-def known_findings(ctx):
-    return {'swap-positive-trough-uninverted': _demo_stays_high}
